@@ -272,6 +272,15 @@ func (loc *Location) ExecAction(ctx *Context, bs Bindings, a Action) (interface{
 
 	Log(INFO, ctx, "core.ExecAction", "action", a)
 
+	// The actions of a rule run concurrently and are handed the same
+	// Bindings map, and maybeCopyEvent (below) writes to it.  So work
+	// on a private copy.
+	own := make(Bindings, len(bs))
+	for p, v := range bs {
+		own[p] = v
+	}
+	bs = own
+
 	f, err := loc.getActionFunc(ctx, bs, a)
 
 	if nil != err {
